@@ -251,6 +251,7 @@ theorem Excl_stepOp (cfg : Cfg) (o : Op) {s : State} (h : Excl s) : Excl (stepOp
         | some n => simp only; split <;> simp_all [Excl]
   | disableMemo => exact Excl_disableMemo s
   | copyExpr i => simp only [stepOp]; split <;> exact h
+  | wrapExpr i => simp only [stepOp]; split <;> exact h
   | _ => exact h
 
 /-- **the two modes are never on together**, whatever is done — setters with or without `force`,
@@ -374,7 +375,9 @@ theorem users_untouched {cfg : Cfg} (hc : CfgOK cfg) : ∀ (cs : List Cmd) (m : 
     (b) gives *copies* made afterwards `set(c)` iff the original follows the default
         (`copyDefaultWhiteChars`), else the original's own set;
     (c) sets every built-in that follows the default to `set(c)` and leaves the other built-ins alone;
-    (d) does not change any existing user expression (see `users_untouched` for arbitrary sequences).
+    (d) does not change any existing user expression (see `users_untouched` for arbitrary sequences);
+    (e) a *composite* built afterwards over an existing expression inherits that expression's set and
+        `copyDefaultWhiteChars` flag (so it skips exactly what its first child skips), not the new default.
     PARTIAL: the statement is about the attributes `whiteChars`/`copyDefaultWhiteChars`, which is all the
     setter touches; that these attributes determine which characters an expression actually skips, and
     how composites inherit them from their first sub-expression, is not modelled — it is checked on the
@@ -384,8 +387,15 @@ theorem default_ws_scope_partial (cfg : Cfg) (c : String) (s : State) :
     (∀ e : Expr, copyExpr (setDefaultWs c s) e = if e.copyDef then ⟨pySet c, true⟩ else e) ∧
     (∀ e ∈ (setDefaultWs c s).builtins, e.copyDef = true → e.ws = pySet c) ∧
     BRelL s.builtins (setDefaultWs c s).builtins ∧
-    (setDefaultWs c s).users = s.users := by
-  refine ⟨rfl, ?_, ?_, ?_, rfl⟩
+    (setDefaultWs c s).users = s.users ∧
+    (∀ i e, s.users[i]? = some e →
+      (stepOp cfg (.wrapExpr i) (setDefaultWs c s)).1.users = s.users ++ [⟨e.ws, e.copyDef⟩]) := by
+  refine ⟨rfl, ?_, ?_, ?_, rfl, ?_⟩
+  rotate_left 3
+  · intro i e he
+    have : (setDefaultWs c s).users[i]? = some e := he
+    simp only [stepOp, this, wrapExpr]
+    rfl
   · intro e
     cases e with | mk w cd =>
     cases cd <;> simp [copyExpr, setDefaultWs]
